@@ -29,21 +29,6 @@ def IsRefundOf (p : Packet) : Op → Prop
     histories, `Ics20.storeStable_run`) -/
 def StoreStable (ch : Chain) : Prop := ∀ d ∈ ch.denoms, PathStable d
 
-theorem tokenFromCoin_cases {cfg : Config} {ch : Chain} {denom : Str} {tok : Denom}
-    (h : tokenFromCoin cfg ch denom = .ok tok) : tok = ⟨[], denom⟩ ∨ tok ∈ ch.denoms := by
-  unfold tokenFromCoin at h
-  split at h
-  · injection h with h; exact Or.inl h.symm
-  · split at h
-    · cases h
-    · split at h
-      · rename_i d hd
-        injection h with h
-        subst h
-        right
-        exact List.mem_of_find?_eq_some hd
-      · cases h
-
 /-- **The refund sees the token that was sent.**  For a packet produced by `Transfer`, re-parsing the
     packet's denomination path yields the token `SendTransfer` debited (v1: the token from
     `TokenFromCoin`, whose base passed `ValidateBaseNotHopLike`; v2: the re-parsed token itself). -/
@@ -63,16 +48,6 @@ theorem sent_token_is_reparsed_token {cfg : Config} {c : Nat} {ch ch' : Chain} {
       · exact hstore tok hmem
     rw [hstable]; exact hst
   · exact hst
-
-theorem moveBal_inverse (b0 b2 : Addr → Str → Nat) (s e : Addr) (k : Str) (n : Nat)
-    (h0 : n ≤ b0 s k) (h2 : n ≤ b2 e k) (a : Addr) (x : Str) :
-    moveBal b2 e s k n a x + moveBal b0 s e k n a x = b2 a x + b0 a x := by
-  unfold moveBal
-  by_cases hx : x = k
-  · subst hx
-    by_cases has : a = s <;> by_cases hae : a = e <;> simp [has, hae] <;>
-      (try subst has) <;> (try subst hae) <;> simp_all <;> omega
-  · simp [hx]
 
 /-- **Exact refund (frame law).**  Let a `MsgTransfer` send packet `p` from world `w` (giving `w₁`), and
     let any refunding callback for `p` — timeout, v1 error acknowledgement or v2 sentinel — complete
